@@ -301,3 +301,22 @@ def condition_kind_shapes():
             lines = pre + [f'If {cond}', 'say 1', 'Else', 'say 2', '', f'While {cond}', 'say 3', 'Break', '', f'Until {cond}', 'say 4', 'Break', '', f'If {cond}', 'say 5', '', 'say 6']
             out.append(_finish(lines))
     return out
+
+
+# ------------------------------------------------------------------------------------------------- arrays (C06)
+ARRAY_ATOMS = ['Rock X with 9001', 'Rock X with 9001, 9002', 'Rock X', 'Roll X', 'Roll X into Y', 'say roll X', 'Let X at 0 be 9003', 'Let X at 2 be 9003', 'Let X at "k" be 9003', 'Let X at null be 9003',
+               'Let Y be X', 'Rock Y with 5', 'Let Y at 0 be 6', 'Roll Y', 'Let X at 1 be Y', 'Rock X with Y', 'Bump taking X', 'Put X at 0 into X',
+               'say X at 0', 'say X at 1', 'say X at "k"', 'say X', 'say Y', 'say X at 0 at 0', 'Put X plus 1 into Z\nsay Z']
+
+
+def array_shapes(max_len=2):
+    """every sequence of <= max_len array statements (push / pop / indexed and keyed writes / copies and mutation of the copy / storing an array
+    in an array / passing to a function that mutates its parameter); finally both arrays and an element are printed"""
+    out = []
+    pre = ['Bump takes L', 'Rock L with 7', 'Let L at 0 be 8', 'give back L', '']
+    for n in range(1, max_len + 1):
+        for seq in itertools.product(ARRAY_ATOMS, repeat=n):
+            lines = pre + list(seq) + ['say X', 'say Y', 'say X at 0', 'say X at "k"']
+            try: out.append(_renumber('\n'.join(lines) + '\n'))
+            except OverflowError: pass
+    return out
